@@ -1,4 +1,6 @@
 import EpgVerif.Props.C06
+import EpgVerif.Tie.PhysSites
+import EpgVerif.Tie.Exchange
 open EpgVerif.Props.C06
 #print axioms evolve_fixed
 #print axioms evolve_zero
@@ -10,3 +12,8 @@ open EpgVerif.Props.C06
 #print axioms equilibrium_in_kernel
 #print axioms applyX_components
 #print axioms applyX_is_evolve
+#print axioms EpgVerif.Tie.PhysSites.sites_as_modelled
+#print axioms EpgVerif.Tie.Exchange.genT2_tie
+#print axioms EpgVerif.Tie.Exchange.genL2_tie
+#print axioms EpgVerif.Tie.Exchange.genT3_tie
+#print axioms EpgVerif.Tie.Exchange.genL3_tie
